@@ -323,6 +323,142 @@ func TestVerifC03KeyStore(t *testing.T) {
 	r.Bound("signing_entry_points", len(entries)+1)
 	r.Bound("supplied_key_kinds", len(sks))
 
+	// ---------------------------------------------------------------- (a') in-memory signers: the binding clause
+	// signer holding {JWK with kid K, JWK with another kid, JWK without kid} x requested kid {K, other, empty} x SignJWT / SignJWS:
+	// success => the key held for the REQUESTED kid signed, i.e. the held key's id equals the requested id (and the token says so)
+	{
+		const memK, memOther = "did:web:example.com:iam:mem#0", "did:web:example.com:iam:mem#1"
+		mkKey := func(kid string, set bool) (jwk.Key, crypto.PublicKey) {
+			k, _ := ecdsa.GenerateKey(elliptic.P256(), rand.Reader)
+			j, _ := jwk.FromRaw(k)
+			if set {
+				_ = j.Set(jwk.KeyIDKey, kid)
+			}
+			return j, &k.PublicKey
+		}
+		gen, _ := nutsCrypto.GenerateJWK() // what the node's own helper returns (no kid)
+		var genPub crypto.PublicKey
+		if pk, err := gen.PublicKey(); err == nil {
+			_ = pk.Raw(&genPub)
+		}
+		type held struct {
+			name string
+			key  jwk.Key
+			pub  crypto.PublicKey
+		}
+		var helds []held
+		for _, h := range []struct {
+			name, kid string
+			set       bool
+		}{{"jwk-with-kid-K", memK, true}, {"jwk-with-other-kid", memOther, true}, {"jwk-without-kid", "", false}, {"jwk-with-empty-kid", "", true}} {
+			k, p := mkKey(h.kid, h.set)
+			helds = append(helds, held{h.name, k, p})
+		}
+		if genPub != nil {
+			helds = append(helds, held{"GenerateJWK()", gen, genPub})
+		}
+		memServed, memRefused := 0, 0
+		for _, h := range helds {
+			signer := nutsCrypto.MemoryJWTSigner{Key: h.key}
+			for _, req := range []string{memK, memOther, "", " ", "did:web:example.com:iam:mem"} {
+				for _, how := range []string{"SignJWT", "SignJWS", "SignJWS-detached", "dag.TransactionSigner", "JsonWebSignature2020.Sign"} {
+					var tok string
+					var err error
+					func() {
+						defer func() {
+							if p := recover(); p != nil {
+								err = fmt.Errorf("panic: %v", p)
+							}
+						}()
+						switch how {
+						case "SignJWT":
+							tok, err = signer.SignJWT(ctx, map[string]interface{}{"iss": "verif"}, nil, req)
+						case "SignJWS":
+							tok, err = signer.SignJWS(ctx, []byte("payload"), map[string]interface{}{}, req, false)
+						case "SignJWS-detached":
+							tok, err = signer.SignJWS(ctx, []byte("payload"), map[string]interface{}{}, req, true)
+						case "dag.TransactionSigner":
+							utx, _ := dag.NewTransaction(hash.SHA256Sum([]byte("payload")), "application/verif+json", nil, nil, 0)
+							var tx dag.Transaction
+							tx, err = dag.NewTransactionSigner(signer, req, nil).Sign(ctx, utx, time.Now())
+							if err == nil {
+								tok = string(tx.Data())
+							}
+						case "JsonWebSignature2020.Sign":
+							var b []byte
+							b, err = signature.JSONWebSignature2020{Signer: signer}.Sign(ctx, []byte("canonical document"), req)
+							tok = string(b)
+						}
+					}()
+					takeLogs()
+					r.Eval("memory-signer|" + h.name + "|" + nameClass(req) + "|" + how)
+					heldFor := h.key.KeyID() == req // the signer holds the key identified by the requested id
+					r.Outcome(fmt.Sprintf("memory-signer held-for-requested=%v served=%v", heldFor, err == nil))
+					if err != nil {
+						memRefused++
+						continue
+					}
+					memServed++
+					if !heldFor {
+						r.Violation("C03|keystore|binding|memory-signer-signs-for-key-id-it-does-not-hold|"+how,
+							fmt.Sprintf("MemoryJWTSigner holding %s (key id %q) signed for the requested key id %q: the token names a key id whose key did not sign it", h.name, h.key.KeyID(), req),
+							map[string]any{"held": h.name, "requested": req, "how": how})
+					}
+					if how == "SignJWT" || how == "SignJWS" {
+						if _, verr := jws.Verify([]byte(tok), jws.WithKey(jwa.ES256, h.pub)); verr != nil {
+							r.Violation("C03|keystore|binding|memory-signer-own-key-fails|"+how, fmt.Sprintf("the token of MemoryJWTSigner(%s) does not verify with its own key: %v", h.name, verr), map[string]any{"held": h.name, "requested": req})
+						}
+						if m, perr := jws.Parse([]byte(tok)); perr == nil && len(m.Signatures()) == 1 {
+							if got := m.Signatures()[0].ProtectedHeaders().KeyID(); got != req {
+								r.Violation("C03|keystore|binding|memory-signer-token-names-other-key-id|"+how, fmt.Sprintf("requested key id %q, the token names %q", req, got), map[string]any{"held": h.name, "requested": req})
+							}
+						}
+					}
+				}
+			}
+		}
+		if memServed == 0 || memRefused == 0 {
+			t.Fatalf("harness (vacuity guard): memory signer served=%d refused=%d", memServed, memRefused)
+		}
+		// the memory-backed key store (test helper NewMemoryCryptoInstance) obeys the same clause
+		mc := nutsCrypto.NewMemoryCryptoInstance(t)
+		var mk []ksKey
+		for _, kid := range []string{memK, memOther} {
+			_, pub, err := mc.New(ctx, nutsCrypto.StringNamingFunc(kid))
+			if err != nil {
+				t.Fatalf("harness: memory key store New: %v", err)
+			}
+			mk = append(mk, ksKey{kid: kid, pub: pub})
+		}
+		for i, k := range mk {
+			for _, how := range []string{"SignJWT", "SignJWS"} {
+				var tok string
+				var err error
+				if how == "SignJWT" {
+					tok, err = mc.SignJWT(ctx, map[string]interface{}{"iss": "verif"}, nil, k.kid)
+				} else {
+					tok, err = mc.SignJWS(ctx, []byte("payload"), map[string]interface{}{}, k.kid, false)
+				}
+				r.Eval("memory-keystore|" + k.kid + "|" + how)
+				if err != nil {
+					r.Observation("memory-keystore-refuses", err.Error())
+					continue
+				}
+				if _, verr := jws.Verify([]byte(tok), jws.WithKey(jwa.ES256, k.pub)); verr != nil {
+					r.Violation("C03|keystore|binding|own-key-fails|memory-keystore."+how, fmt.Sprintf("memory key store: %s for %q does not verify with its key: %v", how, k.kid, verr), nil)
+				}
+				if _, verr := jws.Verify([]byte(tok), jws.WithKey(jwa.ES256, mk[1-i].pub)); verr == nil {
+					r.Violation("C03|keystore|binding|other-key-verifies|memory-keystore."+how, fmt.Sprintf("memory key store: %s for %q verifies with the key of %q", how, k.kid, mk[1-i].kid), nil)
+				}
+			}
+			for _, unknownKid := range []string{"", "did:web:example.com:iam:mem", "%"} {
+				if _, err := mc.SignJWT(ctx, map[string]interface{}{"iss": "verif"}, nil, unknownKid); err == nil {
+					r.Violation("C03|keystore|unknown-key-id-served|memory-keystore.SignJWT", fmt.Sprintf("memory key store signed for %q", unknownKid), nil)
+				}
+			}
+		}
+	}
+
 	// ---------------------------------------------------------------- (b) KeyStore methods x key ids
 	E := keys[0].kid
 	unknown := []string{"", " ", "  ", "%", "_", "%%", "%_%", "did:%", "did:web:%", "did:web:example.com:iam:alpha#_", "did:web:example.com:iam:alpha#%", "did:web:example.com:iam:alpha%",
